@@ -222,6 +222,8 @@ def _tree_case(h, rng, cls_name):
                     deleted |= sub | {n.id}
                 else:
                     for c in list(n.children):       # unambiguous final state: children are re-parented to the grandparent / detached first
+                        if c.id in deleted:           # (re-parenting a delete-marked child is the C30 finding: not generated)
+                            continue
                         c.parent = n.parent if (n.parent is not None and n.parent.id not in deleted) else None
                         moved.add(c.id)
                     deleted.add(n.id)
@@ -397,8 +399,13 @@ def generate(chk, rng, n, start_id):
             rec["kind"] = "ok"
             rec["final"] = h.rows(s.connection(), names)
             st["ok"] += 1
-            if rec["final"] != intended:      # C30's subject on these shapes; reported as evidence, not a C31 verdict
+            if rec["final"] != intended:
+                # the flush "succeeded" but did not write the in-memory graph (e.g. a statement emitted before its FK value was synchronised):
+                # the generator only produces batches whose intended rows are unambiguous, so this is reported (kind rows-differ-from-projection)
                 st["final_differs_from_projection"] = st.get("final_differs_from_projection", 0) + 1
+                rec["exc"] = "rows-differ"
+                rec["violation"] = "flush succeeded on shape %s but the rows %s differ from the projection of the in-memory graph %s (statements %s)" % (
+                    shape, json.dumps(rec["final"])[:300], json.dumps(intended)[:300], json.dumps(rec["ev"])[:300])
         elif type(exc).__name__ == "IntegrityError":
             rec["kind"] = "fail"
             st["integrity_error"] += 1
